@@ -162,11 +162,23 @@ def nj_certified(m):
 # ----------------------------------------------------------------------
 # cases
 
-def make_case(algo, kind, m, gen=None):
+# taxon names: everything clustering.upgma / neighbor accept (check_taxon_names forbids only
+# "():;,"): blanks, dots, digits, case variants, underscores, quotes, non-ASCII letters
+NAME_POOL = ["Old High German", "Mid. Dutch", "German", "german", "GERMAN", "Old_High German", "t 1", "2nd  lang.",
+             "x.y", "O'odham", "Ewe-1", "\u00c9w\u00e9", "\u00d1and\u00fa", "\u0420\u0443\u0441\u0441\u043a\u0438\u0439",
+             "a b c", "A b", "0.5", "e5", "Proto-Indo European", "l\u00e4nsi suomi", "7", "No. 7", "-", "+1.0"]
+
+
+def plain_names(n):
+    return ["t%d" % i for i in range(n)]
+
+
+def make_case(algo, kind, m, gen=None, container="list", names=None):
     n = len(m)
     exact = (kind == "ultra" and algo == "upgma") or n <= 2
     return {"algo": algo, "kind": kind, "n": n, "matrix": m, "gen": gen,
-            "eps": F(0) if exact else EPS}
+            "eps": F(0) if exact else EPS, "container": container,
+            "names": list(names) if names is not None else plain_names(n)}
 
 
 def gen_case(rng, max_n):
@@ -175,60 +187,78 @@ def gen_case(rng, max_n):
     lo = 2
     n = rng.choice([lo, 3, 3, 4, 4, 5, 5, 6, 6, 7, 7, 8, 9, 10, 11, 12])
     n = max(lo, min(n, max_n))
+    container = rng.choice(["list", "numpy"])
+    names = rng.sample(NAME_POOL, n) if rng.random() < 0.5 else None
     if kind == "ultra":
         t = gen_ultrametric(rng, n)
-        return make_case(algo, kind, tree_metric(t, n), t)
+        return make_case(algo, kind, tree_metric(t, n), t, container, names)
     if kind == "additive":
         t = gen_additive(rng, n)
         # an additive tree is a generating tree for NJ only
-        return make_case(algo, kind, tree_metric(t, n), t if algo == "nj" else None)
-    return make_case(algo, kind, gen_arbitrary(rng, n))
+        return make_case(algo, kind, tree_metric(t, n), t if algo == "nj" else None, container, names)
+    return make_case(algo, kind, gen_arbitrary(rng, n), None, container, names)
 
 
 def exhaustive_cases(n_max=4, vals=(F(1, 2), F(1), F(3, 2))):
+    k = 0
     for n in range(1, n_max + 1):
         pairs = [(i, j) for i in range(n) for j in range(i + 1, n)]
         for combo in itertools.product(vals, repeat=len(pairs)):
             m = [[F(0)] * n for _ in range(n)]
             for (i, j), v in zip(pairs, combo):
                 m[i][j] = m[j][i] = v
+            k += 1
             for algo in ("upgma", "nj"):
-                yield make_case(algo, "exh", m)
+                # alternate the container and the kind of names over the enumeration
+                yield make_case(algo, "exh", m, None, "numpy" if k % 2 else "list",
+                                NAME_POOL[k % 7:k % 7 + n] if (k // 2) % 2 else None)
 
 
 # ----------------------------------------------------------------------
 # running the implementation
 
-_TOK = re.compile(r"\s*([(),;]|:[-+0-9.eE]+|[^(),:;\s]+)")
-
-
-def parse_newick(s, names):
-    toks = _TOK.findall(s)
+def parse_newick(s, names, foreign):
+    """Parse a Newick string by its structural characters "(),:;" only (lingpy prints labels
+    unquoted, so a label is whatever stands between them - blanks included, nothing is
+    stripped).  A leaf label is mapped to the index of the taxon with exactly that name; a
+    label that is not one of the given names gets a number >= len(names) (recorded in
+    `foreign`), so that the leaf checker in Coq rejects it."""
     pos = [0]
 
+    def text():
+        st = pos[0]
+        while pos[0] < len(s) and s[pos[0]] not in "(),:;":
+            pos[0] += 1
+        return s[st:pos[0]]
+
     def node():
-        if toks[pos[0]] == "(":
+        if pos[0] < len(s) and s[pos[0]] == "(":
             pos[0] += 1
             ch = [edge()]
-            while toks[pos[0]] == ",":
+            while pos[0] < len(s) and s[pos[0]] == ",":
                 pos[0] += 1
                 ch.append(edge())
-            assert toks[pos[0]] == ")", s
+            assert pos[0] < len(s) and s[pos[0]] == ")", s
             pos[0] += 1
+            assert text() == "", s            # lingpy prints no inner labels
             return ("N", ch)
-        name = toks[pos[0]]
-        pos[0] += 1
+        name = text()
+        if name not in names:
+            if name not in foreign:
+                foreign.append(name)
+            return ("L", len(names) + foreign.index(name))
         return ("L", names[name])
 
     def edge():
         t = node()
         ln = None
-        if pos[0] < len(toks) and toks[pos[0]].startswith(":"):
-            ln = toks[pos[0]][1:]
+        if pos[0] < len(s) and s[pos[0]] == ":":
             pos[0] += 1
+            ln = text()
+            F(ln)                              # must be a decimal number
         return (t, ln)
     t = node()
-    assert toks[pos[0]:] == [";"], s
+    assert s[pos[0]:] == ";", s
     return t
 
 
@@ -239,8 +269,16 @@ def run_impl(case):
     from lingpy.algorithm.cython import _cluster
     n = case["n"]
     fm = [[float(x) for x in r] for r in case["matrix"]]
-    taxa = ["t%d" % i for i in range(n)]
+    taxa = list(case.get("names") or plain_names(n))
+    assert len(set(taxa)) == n == len(taxa)
     names = {t: i for i, t in enumerate(taxa)}
+    foreign = []
+
+    def fresh():
+        if case.get("container", "list") == "numpy":
+            import numpy
+            return numpy.array(fm, dtype=numpy.float64)
+        return copy.deepcopy(fm)
     inner = "_upgma" if case["algo"] == "upgma" else "_neighbor"
     outer = clustering.upgma if case["algo"] == "upgma" else clustering.neighbor
     orig = getattr(_cluster, inner)
@@ -257,8 +295,8 @@ def run_impl(case):
             depth[0] -= 1
     setattr(_cluster, inner, wrapper)
     try:
-        s_len = outer(copy.deepcopy(fm), list(taxa), distances=True)
-        s_top = outer(copy.deepcopy(fm), list(taxa), distances=False)
+        s_len = outer(fresh(), list(taxa), distances=True)
+        s_top = outer(fresh(), list(taxa), distances=False)
     finally:
         setattr(_cluster, inner, orig)
     assert len(recorded) == 2, "the builder was not called once per call"
@@ -266,7 +304,8 @@ def run_impl(case):
     rows2 = [[int(r[0]), int(r[1]), F(float(r[2])), F(float(r[3]))] for r in recorded[1]]
     assert rows == rows2, "two runs on the same matrix filled different tree matrices"
     res = {"rows": rows, "newick": s_top, "newick_len": s_len,
-           "nwk": parse_newick(s_top, names), "nwkd": parse_newick(s_len, names)}
+           "nwk": parse_newick(s_top, names, foreign), "nwkd": parse_newick(s_len, names, foreign),
+           "foreign_leaf_names": foreign}
     if case["algo"] == "nj":
         res["certified"] = nj_certified(case["matrix"])
     else:
@@ -303,7 +342,7 @@ def render(case, res):
 
 
 BITS = {0: "correspondence: tree matrix differs from the model's, or the Newick nesting/lengths are not those the tree matrix defines",
-        1: "structure: not n-1 merges of live nodes, or the Newick tree is not binary / its leaves are not the taxa exactly once",
+        1: "structure: not n-1 merges of live nodes, or the Newick tree is not binary / its leaf labels are not the given taxon names exactly once",
         2: "UPGMA ultrametricity: root-to-leaf branch sums differ",
         3: "UPGMA recovery: the clades of the returned tree are not those of the generating ultrametric tree",
         4: "NJ recovery: the splits of the returned tree are not those of the generating additive tree",
@@ -341,6 +380,7 @@ def jsonable(case, res=None):
     if res is not None:
         c["impl"] = {"rows": [[a, b, str(x), str(y), float(x), float(y)] for a, b, x, y in res["rows"]],
                      "newick": res["newick"], "newick_len": res["newick_len"],
+                     "leaf_names_not_among_the_given_taxa": res["foreign_leaf_names"],
                      "nj_margin_certified": res["certified"]}
     return c
 
@@ -350,6 +390,9 @@ def from_json(c):
     case["matrix"] = [[F(x) for x in r] for r in c["matrix"]]
     case["eps"] = F(c["eps"])
     case["gen"] = _tree_unjson(c.get("gen"))
+    case.setdefault("container", "list")
+    if not case.get("names"):
+        case["names"] = plain_names(len(case["matrix"]))
     case.pop("impl", None)
     return case
 
@@ -361,10 +404,20 @@ def shrink(case):
         for drop in range(n):
             if case["gen"] is not None:
                 t = prune(case["gen"], drop)
-                yield make_case(case["algo"], case["kind"], tree_metric(t, n - 1), t)
+                yield make_case(case["algo"], case["kind"], tree_metric(t, n - 1), t, case["container"],
+                                [x for i, x in enumerate(case["names"]) if i != drop])
             else:
                 keep = [i for i in range(n) if i != drop]
-                yield make_case(case["algo"], case["kind"], [[m[i][j] for j in keep] for i in keep])
+                yield make_case(case["algo"], case["kind"], [[m[i][j] for j in keep] for i in keep], None,
+                                case["container"], [case["names"][i] for i in keep])
+    if case["container"] != "list":
+        c = dict(case)
+        c["container"] = "list"
+        yield c
+    if case["names"] != plain_names(n):
+        c = dict(case)
+        c["names"] = plain_names(n)
+        yield c
     if case["gen"] is None:
         for i in range(n):
             for j in range(i + 1, n):
@@ -372,7 +425,7 @@ def shrink(case):
                     if m[i][j] != v:
                         mm = [list(r) for r in m]
                         mm[i][j] = mm[j][i] = v
-                        yield make_case(case["algo"], case["kind"], mm)
+                        yield make_case(case["algo"], case["kind"], mm, None, case["container"], case["names"])
 
 
 def classify(case, res):
@@ -383,6 +436,8 @@ def classify(case, res):
         out.append("nj/%s/%s" % (case["kind"], "certified" if res["certified"] else "rejected"))
     if case["gen"] is not None:
         out.append("has_generating_tree")
+    out.append("matrix=" + case.get("container", "list"))
+    out.append("names=plain" if case["names"] == plain_names(case["n"]) else "names=mixed")
     return out
 
 
